@@ -330,6 +330,7 @@ impl C18 {
                     ("space.inside_envelope", ds.insidete == want_inside),
                     ("space.multiplier", close32(ds.multiplier, s.multiplier) && close32(ds.floor_multiplier, f.multiplier)),
                     ("space.conditions(SPACE-TYPE where absent)", ds.spaceconds == s.conds && ds.systemconds == s.sysconds && ds.spacetype == s.spacetype),
+                    ("space.lighting(POWER, VEEI-OBJ, VEEI-REF)", close32(ds.power, s.lighting.0) && close32(ds.veei_obj, s.lighting.1) && close32(ds.veei_ref, s.lighting.2)),
                     ("space.outline", ds.polygon.0.len() == s.outline.len() && ds.polygon.0.iter().zip(s.outline.iter()).all(|(p, q)| close32(p.x, q.0) && close32(p.y, q.1))),
                 ];
                 for (name, ok) in checks {
